@@ -20,7 +20,7 @@ def handleF : List Sexp → Sexp
     | some a =>
       match which with
       | "number" => (match asNumberCast a with | .ok x => app "ok" [encNum x] | .error _ => app "err" [.atom "WrongArgument"])
-      | "integer" => (match asIntegerCast a with | .ok i => app "ok" [.atom (toString i)] | .error _ => app "err" [.atom "WrongArgument"])
+      | "integer" => (match asIntegerCast a with | .ok i => app "ok" [.atom (toString i)] | .error .doesNotFit => app "err" [.atom "Other"] | .error _ => app "err" [.atom "WrongArgument"])
       | "usize" => (match asUsizeCast a with | .ok n => app "ok" [.atom (toString n)] | .error _ => app "err" [.atom "WrongArgument"])
       | _ => app "err" [.atom "bad-request"]
   | [.atom "kindof", a] =>
